@@ -84,6 +84,20 @@ fn check(text: &str, origin: &str, stats: &mut Stats) {
             if class == "accepted" || text.contains('=') {
                 stats.inc("distinct_nontrivial");
             }
+            // short texts once more with detailed error tracking on (the reader is itself a pest parser;
+            // the switch is process-wide and this worker is single-threaded)
+            if text.len() <= 24 {
+                pest::set_error_detail(true);
+                let again = front_end(text);
+                pest::set_error_detail(false);
+                stats.inc("evaluations");
+                stats.inc("evaluations.error-detail-on");
+                match again {
+                    Ok(c2) if c2 == class => {}
+                    Ok(c2) => stats.violation_class("error-detail-changes-the-outcome", json!({"kind": "front-end-outcome-differs-with-error-detail", "text": text, "detail_off": class, "detail_on": c2, "origin": origin, "features": features()})),
+                    Err(problem) => stats.violation_class(&format!("front-end-panics(detail on):{}", problem.chars().skip(10).take(40).collect::<String>()), json!({"kind": "front-end-panics", "error_detail": true, "text": text, "problem": problem, "origin": origin, "features": features()})),
+                }
+            }
             if class == "accepted" && stats.get("accepted") % 50_000 == 0 {
                 stats.sample(|| json!({"text": text, "outcome": class, "origin": origin}));
             }
@@ -205,6 +219,21 @@ pub fn run(quick: bool, w: &mut Worker, stats: &mut Stats) {
     }
     for t in frag::long_texts() {
         unit(w, stats, &t, "long-texts");
+    }
+    // (v) WHITESPACE / COMMENT written over several lines with every small bad body, alone and next
+    // to a second error elsewhere in the grammar (the validator sorts and merges its error lists)
+    for special in ["WHITESPACE", "COMMENT"] {
+        for m in ["_", "", "@", "$"] {
+            for body in ["\" \"*", "\"\"", "!\"a\"", "\"a\"?", "\" \" | \"\"", "\" \"", "(\"\")*", "zz"] {
+                for layout in ["{m}{\n  {b}\n  | \"\\t\"\n}", "{m}{ {b} | \"\\t\" }", "{m}{\r\n{b}\r\n}"] {
+                    let def = layout.replace("{m}", m).replace("{b}", body);
+                    for other in ["r = { \"a\" }", "r = { \"\"* }", "r = { zz }", "r = { r }", "r = { \"a\" }\nr = { \"b\" }", "r = { (\"a\" | \"\")* }\nq = {\n  !\"a\"+\n}"] {
+                        unit(w, stats, &format!("{special} = {def}\n{other}"), "multi-line-specials");
+                        unit(w, stats, &format!("{other}\n{special} = {def}"), "multi-line-specials");
+                    }
+                }
+            }
+        }
     }
     // (iii) nesting depth sweeps
     let depth = if quick { 256 } else { 512 };
